@@ -590,6 +590,17 @@ func (m *Machine) builtin(it *Item, b *ssa.Builtin, cc *ssa.CallCommon, args []V
 			return x.Cap
 		case Text:
 			return x.N
+		case Ptr:
+			if len(x.Alts) == 0 {
+				return m.IntC(0)
+			}
+			if x.Alts[0].Obj.Kind == KChan {
+				var res T = m.IntC(0)
+				for _, a := range x.Alts {
+					res = c.Ite(a.G, m.heap.Get(a.Obj, 2).(T), res)
+				}
+				return res
+			}
 		}
 		m.fail("cap of %T", args[0])
 	case "append":
